@@ -641,6 +641,311 @@ func vC15Stress(tr *vC15Trace, r *rand.Rand, rounds int) {
 	tr.emit(line)
 }
 
+
+// ---------------------------------------------------------------- concrete model ties
+
+func vC15CoqName(s string) string { return vc15gen.VC15CoqBytes(s) }
+
+func vC15PlainName(r *rand.Rand) string {
+	for {
+		n := vc15gen.VC15Name(r)
+		if !strings.Contains(n, "\\") {
+			return n
+		}
+	}
+}
+
+// vC15NameCase runs dns.PackDomainName on a zeroed buffer of a chosen length with a
+// chosen dictionary and records what it did, for C15.Concrete.pack_name_c.
+func vC15NameCase(tr *vC15Trace, r *rand.Rand) {
+	s := vC15PlainName(r)
+	if r.Intn(12) == 0 {
+		s = []string{"", ".", "a.", "example.com", vC15PlainName(r) + "x"}[r.Intn(5)]
+	}
+	off := r.Intn(40)
+	if r.Intn(15) == 0 {
+		off = 16384 + []int{-3, -1, 0, 5}[r.Intn(4)] // around maxCompressionOffset
+	}
+	var cm map[string]int
+	cmCoq := "None"
+	var initial [][2]any
+	switch r.Intn(4) {
+	case 0:
+	case 1:
+		cm = map[string]int{}
+		cmCoq = "(Some [])"
+	default:
+		cm = map[string]int{}
+		// suffixes of a sibling name (and sometimes of s itself) already in the dictionary
+		sib := vC15PlainName(r)
+		if r.Intn(2) == 0 && len(s) > 2 {
+			sib = "x." + s
+		}
+		pos := 12
+		for i := 0; i < len(sib); i++ {
+			if i == 0 || sib[i-1] == '.' {
+				if key := sib[i:]; key != "" && key != "." && r.Intn(3) != 0 {
+					if _, dup := cm[key]; !dup {
+						cm[key] = pos
+						initial = append(initial, [2]any{key, pos})
+					}
+				}
+				pos += 3 + r.Intn(9)
+			}
+		}
+		parts := make([]string, len(initial))
+		for i, e := range initial {
+			parts[i] = fmt.Sprintf("(%s, %d)", vC15CoqName(e[0].(string)), e[1].(int))
+		}
+		cmCoq = "(Some [" + strings.Join(parts, ";") + "])"
+	}
+	compress := r.Intn(3) != 0
+	// the uncompressed extent, then buffers exactly that long, one short, shorter, longer
+	need := off + len(s) + 1
+	buflen := need + []int{0, 0, -1, -2, 1, 7, 30, -len(s) / 2}[r.Intn(8)]
+	if buflen < 0 {
+		buflen = 0
+	}
+	before := map[string]int{}
+	for k, v := range cm {
+		before[k] = v
+	}
+	buf := make([]byte, buflen)
+	off1, err := 0, error(nil)
+	panicked := false
+	func() {
+		defer func() {
+			if recover() != nil {
+				panicked = true
+			}
+		}()
+		off1, err = dns.PackDomainName(s, buf, off, cm, compress)
+	}()
+	if panicked {
+		tr.emit(map[string]any{"k": "name/panic", "desc": s, "nontrivial": false, "inconclusive": true})
+		return
+	}
+	ok := err == nil
+	written := "[]"
+	if ok && off1 > off && off1 <= len(buf) {
+		written = vc15gen.VC15CoqBytes(string(buf[off:off1]))
+	}
+	type kv struct {
+		k string
+		v int
+	}
+	var added []kv
+	for k, v := range cm {
+		if _, had := before[k]; !had {
+			added = append(added, kv{k, v})
+		}
+	}
+	sort.Slice(added, func(i, j int) bool { return added[i].v < added[j].v })
+	ap := make([]string, len(added))
+	for i, e := range added {
+		ap[i] = fmt.Sprintf("(%s, %d)", vC15CoqName(e.k), e.v)
+	}
+	if !ok { // what a failed call leaves in the dictionary is not part of the contract
+		ap = nil
+		off1 = 0
+	}
+	line := map[string]any{
+		"coq": fmt.Sprintf("CaseName %s %d %d %s %s %s %d %s [%s]", vC15CoqName(s), buflen, off, cmCoq, vC15Bool(compress), vC15Bool(ok), off1, written, strings.Join(ap, ";")),
+		"k":   fmt.Sprintf("name/ok=%v/dict=%v/compress=%v", ok, cm != nil, compress),
+		"desc": map[string]any{"name": s, "buflen": buflen, "off": off, "dict": len(before), "compress": compress, "ok": ok, "off1": off1, "added": len(added),
+			"err": vC15ErrStr(err)},
+		"nontrivial": ok && (len(added) > 0 || off1-off < len(s)),
+	}
+	tr.emit(line)
+}
+
+func vC15Steps(rr dns.RR) (string, bool) {
+	b := func(x []byte) string { return "SBytes " + vc15gen.VC15CoqBytes(string(x)) }
+	nameStep := func(n string, c bool) string { return fmt.Sprintf("SName %s %s", vC15CoqName(n), vC15Bool(c)) }
+	switch v := rr.(type) {
+	case *dns.A:
+		switch {
+		case len(v.A) == 0:
+			return "[]", true
+		case v.A.To4() != nil:
+			return "[" + b(v.A.To4()) + "]", true
+		case len(v.A) == 16:
+			return "[SSkip 4]", true
+		}
+	case *dns.AAAA:
+		switch len(v.AAAA) {
+		case 0:
+			return "[]", true
+		case 16:
+			return "[" + b(v.AAAA) + "]", true
+		}
+	case *dns.NS:
+		return "[" + nameStep(v.Ns, true) + "]", true
+	case *dns.CNAME:
+		return "[" + nameStep(v.Target, true) + "]", true
+	case *dns.PTR:
+		return "[" + nameStep(v.Ptr, true) + "]", true
+	case *dns.MX:
+		return "[" + b([]byte{byte(v.Preference >> 8), byte(v.Preference)}) + ";" + nameStep(v.Mx, true) + "]", true
+	case *dns.DNAME:
+		return "[" + nameStep(v.Target, false) + "]", true
+	case *dns.NULL:
+		return "[" + b([]byte(v.Data)) + "]", true
+	case *dns.OPT:
+		if len(v.Option) == 0 {
+			return "[]", true
+		}
+	}
+	return "", false
+}
+
+// vC15ConcreteCase builds a message from records the concrete model can decompose, packs
+// it through TryPack on a dirty pool and through the library, and records all bytes.
+func vC15ConcreteCase(tr *vC15Trace, r *rand.Rand) {
+	m := new(dns.Msg)
+	vc15gen.VC15Header(r, m)
+	if m.Rcode < 0 || m.Rcode > 4095 {
+		m.Rcode = r.Intn(4096)
+	}
+	m.Compress = r.Intn(4) != 0
+	base := vC15PlainName(r)
+	pick := func() string {
+		switch r.Intn(5) {
+		case 0:
+			return base
+		case 1:
+			return "www." + base
+		case 2:
+			return vC15PlainName(r)
+		case 3:
+			return strings.ToUpper(base)
+		}
+		return "a.b." + base
+	}
+	for i := []int{1, 1, 1, 0, 2}[r.Intn(5)]; i > 0; i-- {
+		m.Question = append(m.Question, dns.Question{Name: pick(), Qtype: dns.TypeA, Qclass: dns.ClassINET})
+	}
+	mk := func() dns.RR {
+		h := dns.RR_Header{Name: pick(), Class: dns.ClassINET, Ttl: uint32(r.Intn(100000)), Rdlength: uint16(40000 + r.Intn(100))}
+		switch r.Intn(9) {
+		case 0:
+			h.Rrtype = dns.TypeA
+			ip := net.IP(make([]byte, 4))
+			r.Read(ip)
+			switch r.Intn(6) {
+			case 0:
+				ip = net.IPv4(ip[0], ip[1], ip[2], ip[3]) // 16-byte mapped form
+			case 1:
+				ip = make([]byte, 16) // not IPv4: the octet-skipping branch
+				r.Read(ip)
+			case 2:
+				ip = nil
+			}
+			return &dns.A{Hdr: h, A: ip}
+		case 1:
+			h.Rrtype = dns.TypeAAAA
+			ip := net.IP(make([]byte, 16))
+			r.Read(ip)
+			if r.Intn(8) == 0 {
+				ip = nil
+			}
+			return &dns.AAAA{Hdr: h, AAAA: ip}
+		case 2:
+			h.Rrtype = dns.TypeNS
+			return &dns.NS{Hdr: h, Ns: pick()}
+		case 3:
+			h.Rrtype = dns.TypeCNAME
+			return &dns.CNAME{Hdr: h, Target: pick()}
+		case 4:
+			h.Rrtype = dns.TypePTR
+			return &dns.PTR{Hdr: h, Ptr: pick()}
+		case 5:
+			h.Rrtype = dns.TypeMX
+			return &dns.MX{Hdr: h, Preference: uint16(r.Intn(65536)), Mx: pick()}
+		case 6:
+			h.Rrtype = dns.TypeDNAME
+			return &dns.DNAME{Hdr: h, Target: pick()}
+		case 7:
+			h.Rrtype = dns.TypeNULL
+			d := make([]byte, r.Intn(12))
+			r.Read(d)
+			return &dns.NULL{Hdr: h, Data: string(d)}
+		}
+		h.Rrtype = dns.TypeA
+		return &dns.A{Hdr: h, A: net.IPv4(10, 0, 0, byte(r.Intn(256))).To4()}
+	}
+	for i := r.Intn(4); i > 0; i-- {
+		m.Answer = append(m.Answer, mk())
+	}
+	for i := r.Intn(3); i > 0; i-- {
+		m.Ns = append(m.Ns, mk())
+	}
+	for i := r.Intn(3); i > 0; i-- {
+		m.Extra = append(m.Extra, mk())
+	}
+	if r.Intn(3) != 0 {
+		o := &dns.OPT{Hdr: dns.RR_Header{Name: ".", Rrtype: dns.TypeOPT, Class: 1232, Ttl: []uint32{0, 0x8000, 0xAB008000, 0x01000000}[r.Intn(4)], Rdlength: 77}}
+		m.Extra = append(m.Extra, o)
+		if r.Intn(5) == 0 {
+			m.Answer = append(m.Answer, o)
+		}
+	} else if m.Rcode > 15 && r.Intn(3) != 0 {
+		m.Rcode &= 0xF
+	}
+	if r.Intn(25) == 0 && len(m.Answer) > 0 {
+		m.Answer[0].Header().Name = "notfqdn.example" // the library errors; both decline
+	}
+
+	ref := vc15gen.VC15DeepCopy(m)
+	want, werr, wpanic := vc15gen.VC15LibPack(ref)
+	if wpanic {
+		return
+	}
+	vC15Dirty(r, 1+r.Intn(3))
+	var got []byte
+	handled, _ := TryPack(m, func(b []byte) error { got = append([]byte{}, b...); return nil })
+	var fails []string
+	if handled && (werr != nil || !bytes.Equal(got, want)) {
+		fails = append(fails, "TryPack bytes differ from the library's")
+	}
+	sh := vc15gen.VC15MakeShapes(m)
+	recs := vc15gen.VC15Records(m)
+	render := func(lo, hi int) string {
+		var parts []string
+		for i := lo; i < hi; i++ {
+			rr := recs[i]
+			steps, _ := vC15Steps(rr)
+			kind := "KOther"
+			if _, isOpt := rr.(*dns.OPT); isOpt {
+				kind = "KOpt"
+			}
+			h := rr.Header()
+			parts = append(parts, fmt.Sprintf("R %s %s %d %d %d %d %d %s", vC15CoqName(h.Name), kind, sh.PtrOf[i], h.Rrtype, h.Class, h.Ttl, h.Rdlength, steps))
+		}
+		return "[" + strings.Join(parts, ";") + "]"
+	}
+	var qs []string
+	for _, q := range m.Question {
+		qs = append(qs, fmt.Sprintf("(%s, %d%%N, %d%%N)", vC15CoqName(q.Name), q.Qtype, q.Qclass))
+	}
+	na, nn := len(m.Answer), len(m.Ns)
+	bytesCoq := "[]"
+	if werr == nil {
+		bytesCoq = vc15gen.VC15CoqBytes(string(want))
+	}
+	line := map[string]any{
+		"coq": fmt.Sprintf("CaseConcrete %s %s [%s] %s %s %s %s %s %s", vc15gen.VC15CoqHeader(m), vC15Bool(m.Compress), strings.Join(qs, ";"),
+			render(0, na), render(na, na+nn), render(na+nn, len(recs)), vC15Bool(handled), vC15Bool(werr == nil), bytesCoq),
+		"k":          fmt.Sprintf("concrete/handled=%v/lib=%v", handled, werr == nil),
+		"desc":       map[string]any{"rcode": m.Rcode, "compress": m.Compress, "sections": []int{len(m.Question), na, nn, len(m.Extra)}, "len": len(want), "liberr": vC15ErrStr(werr), "types": vC15Types(recs)},
+		"nontrivial": handled && len(recs) >= 2,
+	}
+	if len(fails) > 0 {
+		line["go_fail"] = strings.Join(fails, " | ")
+	}
+	tr.emit(line)
+}
+
 func TestVerifC15Wire(t *testing.T) {
 	tr := vC15Open(t)
 	defer tr.f.Close()
@@ -713,6 +1018,12 @@ func TestVerifC15Wire(t *testing.T) {
 	}
 	for c := 0; c < 12+n/25; c++ {
 		vC15Release(tr, r)
+	}
+	for c := 0; c < 40+n/6; c++ {
+		vC15NameCase(tr, r)
+	}
+	for c := 0; c < 30+n/10; c++ {
+		vC15ConcreteCase(tr, r)
 	}
 	runtime.GOMAXPROCS(prev)
 	if runtime.GOMAXPROCS(0) < 4 {
